@@ -120,10 +120,13 @@ func (p *Printer) props(ps []*Property, word string, ind int) {
 	}
 }
 
-func (p *Printer) property(pr *Property, word string, ind int) {
+func (p *Printer) property(pr *Property, word string, ind int) { p.propertyWith(pr, word, ind, nil) }
+
+// propertyWith: extra attribute lines (entity keys: primary, shardKey) go into the body.
+func (p *Printer) propertyWith(pr *Property, word string, ind int, extra []string) {
 	tag, tattrs, body := p.typeSpec(pr.F, ind+1)
 	mark := ""
-	var attrs []string
+	attrs := append([]string{}, extra...)
 	if pr.Required {
 		if p.chance(40) || pr.Optional { // both at once (malformed input): written as attributes
 			attrs = append(attrs, "required = true")
@@ -282,6 +285,8 @@ func (p *Printer) Print(f *File) string {
 			p.service(e.Service)
 		case "topic":
 			p.topic(e.Topic)
+		case "entity":
+			p.entity(e.Entity, 0)
 		}
 	}
 	return p.sb.String()
